@@ -28,7 +28,7 @@ def build_rowsel(rs):
     if t == "ellipsis":
         return Ellipsis
     if t == "int":
-        return pyint(rs["i"])
+        return _scalar(rs["i"], rs.get("np"))
     if t == "slice":
         return _slice(rs)
     if t == "list":
@@ -40,6 +40,12 @@ def build_rowsel(rs):
     raise ValueError(t)
 
 
+def _scalar(v, as_numpy):
+    """an integer index as a python int or (as_numpy) as a numpy integer scalar -- both are integers to the indexing grammar"""
+    import numpy as np
+    return np.int64(pyint(v)) if as_numpy else pyint(v)
+
+
 def build_index(rs, cs):
     r = build_rowsel(rs)
     t = cs["t"]
@@ -48,7 +54,7 @@ def build_index(rs, cs):
             return (r,)
         return r
     if t == "int":
-        return (r, pyint(cs["j"]))
+        return (r, _scalar(cs["j"], cs.get("np")))
     if t == "slice":
         return (r, _slice(cs))
     raise ValueError(t)
